@@ -105,6 +105,8 @@ class ControlModels(CommonModels):
 
     # ---- externals
     def join_hook(self, ex, path, sep, a):
+        if isinstance(a, VMap) and a.keys is not None:
+            a = a.keys              # iterating a dict iterates its keys, in insertion order
         if isinstance(a, VSeq) and isinstance(sep, VStr):
             self.assumptions.add("sep.join(list) is a function of (sep, list) (uninterpreted; A7); event names are ASCII (A9) so the joined text is")
             r = F_join(sep.t, a.t)
